@@ -230,7 +230,7 @@ def gen_case(r, det, bucket, rows, cols, n_ops, p_valid):
         weights = [20, 12, 24, 6, 6, 8, 5, 6, 4, 6, 3, 3]
     else:
         names = ["set", "update", "iadd", "add", "empty", "read", "eq", "eqrev", "dassign", "dempty", "asarray"]
-        weights = [22, 12, 20, 6, 6, 10, 8, 5, 0 if bucket == "phase" else 6, 4, 3]
+        weights = [22, 12, 20, 6, 6, 10, 8, 5, 2 if bucket == "phase" else 6, 4, 3]   # MKID has no phase setter: AttributeError
     holds3d = False
     while len(ops) < n_ops:
         k = r.choices(names, weights)[0]
@@ -579,6 +579,59 @@ def exhaustive_cases(depth: int):
             allseq += seqs
         for s in allseq:
             cases.append({"det": det, "rows": rows, "cols": cols, "bucket": bucket, "ops": copy.deepcopy(s)})
+    return cases
+
+
+def small_alphabet(bucket, rows, cols):
+    """A dozen operations per bucket chosen so that every branch of the setters, of += (empty / initialised, accepted /
+    clipped / rejected before / rejected after the addition), of the resets and of == is reachable: all sequences of
+    length 3 are enumerated in the thorough tier."""
+    al = alphabet(bucket, rows, cols)
+    n = rows * cols
+    good_dt = ALLOWED[bucket][1]
+
+    def np_(shape, dt, data):
+        return {"xr": None, "shape": shape, "dt": dt, "data": data}
+
+    def pick(pred):
+        return next(o for o in al if pred(o))
+
+    ok = pick(lambda o: o["op"] == "set")["arr"]
+    ops = [{"op": "set", "arr": ok},
+           {"op": "set", "arr": np_([cols, rows], good_dt, list(range(n)))},
+           {"op": "iadd", "arr": ok, "via": "detector"},
+           {"op": "iadd", "arr": np_([rows, cols], "complex128", [1] * n)},
+           {"op": "add", "arr": np_([cols], good_dt, [1] * cols)},
+           {"op": "empty"}, {"op": "dempty", "reset": True}, {"op": "read"}, {"op": "asarray"},
+           {"op": "eq", "other": {"kind": bucket, "rows": rows, "cols": cols, "content": ok}},
+           {"op": "eqrev", "other": {"kind": bucket, "rows": rows, "cols": cols, "content": None}}]
+    if bucket == "photon":
+        x3 = pick(lambda o: o["op"] == "set3d")["arr"]
+        x3n = {"xr": {"dims": [0, 1, 2], "wl": [400, 420]}, "shape": [2, rows, cols], "dt": "float32",
+               "data": [-4] + [1] * (2 * n - 1)}
+        ops += [{"op": "set", "arr": np_([rows, cols], "float32", [-1, "nan"] + [3] * (n - 2))},
+                {"op": "iadd", "arr": np_([rows, cols], "float64", [-9] + [0] * (n - 1))},
+                {"op": "set3d", "arr": x3}, {"op": "iadd", "arr": x3n}, {"op": "read3d"},
+                {"op": "dassign", "other": {"kind": "photon", "rows": cols, "cols": rows + 1,
+                                            "content": np_([cols, rows + 1], good_dt, [1] * (cols * (rows + 1)))}}]
+    else:
+        ops += [{"op": "iadd", "arr": {"xr": {"dims": [1, 2], "wl": None}, "shape": [rows, cols], "dt": good_dt, "data": [2] * n}},
+                {"op": "update", "arr": None},
+                {"op": "update", "arr": np_([rows, cols + 1], good_dt, [1] * (rows * (cols + 1)))}]
+        if bucket != "phase":
+            ops.append({"op": "dassign", "other": {"kind": bucket, "rows": rows, "cols": cols, "content": ok}})
+    return ops
+
+
+def exhaustive3_cases():
+    cases = []
+    for det, bucket in [("ccd", "photon"), ("cmos", "pixel"), ("apd", "image"), ("mkid", "phase")]:
+        rows, cols = 2, 3
+        al = small_alphabet(bucket, rows, cols)
+        for a in al:
+            for b in al:
+                for c in al:
+                    cases.append({"det": det, "rows": rows, "cols": cols, "bucket": bucket, "ops": copy.deepcopy([a, b, c])})
     return cases
 
 
@@ -932,6 +985,10 @@ def run(ctx: Ctx):
     cases += gen_family_cases(ctx, ctx.budget(240, 1500))
     if not ctx.quick:
         cases += exhaustive_cases(2)
+        e3 = exhaustive3_cases()
+        ctx.cov["exhaustive_note"] = (f"all sequences of length <= 2 over the one-op alphabet of every bucket and all {len(e3)} "
+                                      "sequences of length 3 over a reduced alphabet (photon, pixel, image, phase)")
+        cases += e3
     pairs, mism, viol, unm = evaluate(ctx, cases, "c")
     account(ctx, pairs, mism, unm, n_corpus)
     add_violations(ctx, viol)
